@@ -1,6 +1,8 @@
 #!/bin/sh
-# run every property check (quick tier) on the current trees; summary lines to stdout
+# run every property check on the current trees; summary lines to stdout
+#   tools/run_all.sh [quick|thorough]
+tier=${1:-quick}
 cd /verif
 for p in C01 C02 C03 C04 C05 C06 C07 C08 C09 C10 C11 C12 C13 C14 C15 C16 C17 C18 C19 C20; do
-  ./check $p 2>&1 | grep -E "^(VIOLATION|KNOWN-FINDING|UNDECIDED|CHECKER-CRASH|C[0-9][0-9]:)" | cut -c1-300
+  ./check $p --tier $tier 2>&1 | grep -E "^(VIOLATION|KNOWN-FINDING|UNDECIDED|CHECKER-CRASH|C[0-9][0-9]:)" | cut -c1-300
 done
